@@ -342,7 +342,7 @@ Origin(a) ==
          ims == IF reval /\ s.rep.lm >= 0 THEN s.rep.lm ELSE IF ex.rq.ims > 0 THEN Invalid ELSE 0
          e == [ ev |-> "call", x |-> ex.x, c |-> ex.ncalls + 1, bg |-> 0, kind |-> IF a.k = "hang" THEN "released" ELSE a.k,
                 tag |-> tag, tok |-> tok, t0 |-> t0, t1 |-> t1, inm |-> inm, ims |-> ims, m |-> ex.rq.m, rng |-> ex.rq.range,
-                oic |-> IF Has(ex.rq, "only-if-cached") THEN 1 ELSE 0, rep |-> rep, ctxdone |-> 0, hsame |-> 1, url |-> "" ]
+                oic |-> IF Has(ex.rq, "only-if-cached") THEN 1 ELSE 0, rep |-> rep, ctxdone |-> 0, hsame |-> 1, usame |-> 1, url |-> "" ]
      IN /\ now' = t1
         /\ ctr' = [ctr EXCEPT !.tag = tagn, !.tok = tokn]
         /\ ex' = [ex EXCEPT !.pc = IF ex.purpose = "bypass" THEN "bypassed" ELSE IF reval THEN "handle" ELSE "missed",
@@ -537,8 +537,9 @@ SwrServe ==
 \* already cancelled takes the background request with it as soon as it has to wait
 BgOriginT(a0, swrms) ==
   /\ ex.pc = "bgorigin"
-  /\ LET late == a0.k = "hang" \/ a0.lat * 1000 >= swrms \/ (ex.rq.cancel # 0 /\ a0.lat > 0)
-         dur == IF ex.rq.cancel # 0 /\ (a0.lat > 0 \/ a0.k = "hang") THEN 0
+  \* (cancel: 0 never, 1 after the return, 2 before the call, 3 never - but the caller's context has a far deadline of its own)
+  /\ LET late == a0.k = "hang" \/ a0.lat * 1000 >= swrms \/ (ex.rq.cancel \in {1, 2} /\ a0.lat > 0)
+         dur == IF ex.rq.cancel \in {1, 2} /\ (a0.lat > 0 \/ a0.k = "hang") THEN 0
                 ELSE IF late THEN (swrms + 999) \div 1000 ELSE a0.lat
          a == IF late THEN [a0 EXCEPT !.k = "hang"] ELSE a0
          isResp == a.k \in {"full", "304", "bodyerr"}
@@ -555,7 +556,7 @@ BgOriginT(a0, swrms) ==
                 inm |-> IF s.rep.etag > 0 /\ ~("swr_strips_validators" \in Defects /\ NamesEtag(s.rep)) THEN s.rep.etag ELSE ex.rq.inm,
                 ims |-> IF s.rep.lm >= 0 THEN s.rep.lm ELSE IF ex.rq.ims > 0 THEN Invalid ELSE 0,
                 m |-> ex.rq.m, rng |-> ex.rq.range, oic |-> 0, rep |-> rep, ctxdone |-> IF a.k = "hang" THEN 1 ELSE 0,
-                hsame |-> 1, url |-> "" ]
+                hsame |-> 1, usame |-> 1, url |-> "" ]
      IN /\ ctr' = [ctr EXCEPT !.tag = tagn, !.tok = tokn]
         /\ led' = Emit(e)
         /\ ex' = [ex EXCEPT !.pc = IF a.k \in {"err", "hang"} \/ "bg_shares_response" \in Defects THEN "bghandle" ELSE "bggetent",
